@@ -3,6 +3,16 @@ use thiserror::Error as ThisError;
 
 #[derive(Serialize, Deserialize, PartialEq, Eq, Clone, ThisError, Debug)]
 pub enum HttpError {
+    #[error("URL parse error: {0}")]
+    Url(String),
+    #[error("IO error: {0}")]
+    Io(String),
+    #[error("Timeout")]
+    Timeout,
+    // Variants that never cross the FFI boundary are skipped and must stay last:
+    // a skipped variant still counts towards the index `Serialize` writes for the
+    // variants declared after it, but not towards the index `Deserialize` (and the
+    // generated foreign types) expect.
     #[error("HTTP error {code}: {message}")]
     #[serde(skip)]
     Http {
@@ -13,12 +23,6 @@ pub enum HttpError {
     #[error("JSON serialisation error: {0}")]
     #[serde(skip)]
     Json(String),
-    #[error("URL parse error: {0}")]
-    Url(String),
-    #[error("IO error: {0}")]
-    Io(String),
-    #[error("Timeout")]
-    Timeout,
 }
 
 impl From<http_types::Error> for HttpError {
